@@ -9,6 +9,8 @@
 (*   cmapc     CMapDB._cmap_cache   name -> loaded CMap (filled on use)    *)
 (*   umapc     CMapDB._umap_cache   ordering -> [horizontal, vertical]     *)
 (*   interned  PSLiteralTable: names in interning order (identity = index) *)
+(*   heap      abstract allocator state (read only by the two address      *)
+(*             deviations)                                                 *)
 (* PER CALL:   calls[s].fonts  PDFResourceManager._cached_fonts objid->font*)
 (*             calls[s].d9     PDFDocument._cached_objs of the call's      *)
 (*                             document: the entry of object 9, the        *)
@@ -47,8 +49,8 @@
 (*                                                                         *)
 (* MICRO-STEPS (one per code step that touches shared or cached state):    *)
 (*   ADocOpen  APageStart  AInitColorSpacesCopy                            *)
-(*   AFontCacheHit  AFontMiss  AGetFontSpec  ADecipherAllInPlace           *)
-(*   ACopyDescendantSpec                                                   *)
+(*   AFontCacheHit  AFontMiss  AGetFontSpec  AGetObjParsed                 *)
+(*   ADecipherAllInPlace  ACopyDescendantSpec                              *)
 (*   AGetEncodingShared  AGetEncodingCopyOnWrite  AParseToUnicode          *)
 (*   ACMapCacheFill  ACMapCacheHit  AUMapCacheFill  AUMapCacheHit          *)
 (*   AResolveAllInPlace  AFontCacheFill  ARender                           *)
@@ -145,6 +147,9 @@ Fresh(d, p) == [txt |-> [k \in 1..Len(Shows(p)) |-> RefGlyph(d, Shows(p)[k][1], 
                 img |-> IF HasInline(d, p) THEN "inline0" ELSE "",           \* name of the inline image: its number on the page
                 grp |-> IF HasTie(d, p) THEN "creation-order" ELSE ""]       \* ties are broken by the order the boxes were made in
 NoRes == [txt |-> <<>>, w |-> <<>>, n |-> 0, img |-> "", grp |-> ""]
+\* ghost: the page result produced by the step just taken (valid only in the state right after ARender - every other
+\* step clears it, so that it does not multiply the state space)
+NoLast == [valid |-> FALSE, doc |-> "", page |-> 0, res |-> NoRes]
 
 \* ------------------------------------------------------------------ state
 VARIABLES base, cmapc, umapc, interned, heap, shared, calls, running, ncalls, client, last, sched
@@ -173,7 +178,7 @@ Init == /\ base = [enc |-> PristineEnc, cs |-> PristineCS]
         /\ calls = [s \in 1..MaxLive |-> Free]
         /\ running = 0 /\ ncalls = 0
         /\ client = [st |-> "none", alias |-> FALSE, name |-> "", own |-> EmptyTab]
-        /\ last = [valid |-> FALSE, doc |-> "", page |-> 0, res |-> NoRes]
+        /\ last = NoLast
         /\ sched = <<>>
 
 \* one uniform record type for the recorded schedule
@@ -198,7 +203,7 @@ Open(d, c, ps) ==
        /\ calls' = [calls EXCEPT ![s] = [Free EXCEPT !.st = "new", !.doc = d, !.caching = c, !.pages = ps, !.kind = "iter"]]
        /\ Log(Ev("open", s, d, c, ps, "iter", 0, NoRes))
   /\ ncalls' = ncalls + 1
-  /\ UNCHANGED <<base, cmapc, umapc, interned, heap, shared, running, client, last>>
+  /\ last' = NoLast /\ UNCHANGED <<base, cmapc, umapc, interned, heap, shared, running, client>>
 
 Extract(d, c, ps, k) ==
   /\ running = 0 /\ ncalls < MaxCalls /\ FreeSlots # {}
@@ -208,20 +213,20 @@ Extract(d, c, ps, k) ==
        /\ running' = s
        /\ Log(Ev("extract", s, d, c, ps, k, 0, NoRes))
   /\ ncalls' = ncalls + 1
-  /\ UNCHANGED <<base, cmapc, umapc, interned, heap, shared, client, last>>
+  /\ last' = NoLast /\ UNCHANGED <<base, cmapc, umapc, interned, heap, shared, client>>
 
 Next(s) ==
   /\ running = 0 /\ calls[s].st \in {"new", "idle"} /\ Remaining(s) # {}
   /\ calls' = [calls EXCEPT ![s].st = "run", ![s].pc = IF calls[s].st = "new" THEN "open" ELSE "page"]
   /\ running' = s
   /\ Log(Ev("next", s, calls[s].doc, calls[s].caching, calls[s].pages, "iter", 0, NoRes))
-  /\ UNCHANGED <<base, cmapc, umapc, interned, heap, shared, ncalls, client, last>>
+  /\ last' = NoLast /\ UNCHANGED <<base, cmapc, umapc, interned, heap, shared, ncalls, client>>
 
 Close(s) ==
   /\ running = 0 /\ calls[s].st \in {"new", "idle"} /\ (EarlyClose \/ Remaining(s) = {})
   /\ calls' = [calls EXCEPT ![s] = Free]
   /\ Log(Ev("close", s, calls[s].doc, calls[s].caching, calls[s].pages, "iter", 0, NoRes))
-  /\ UNCHANGED <<base, cmapc, umapc, interned, heap, shared, running, ncalls, client, last>>
+  /\ last' = NoLast /\ UNCHANGED <<base, cmapc, umapc, interned, heap, shared, running, ncalls, client>>
 
 UseCMap(n) ==
   /\ ClientCalls /\ running = 0 /\ ncalls < MaxCalls /\ client.st = "none"
@@ -229,7 +234,7 @@ UseCMap(n) ==
   /\ client' = [client EXCEPT !.st = "start", !.name = n]
   /\ ncalls' = ncalls + 1
   /\ Log(Ev("usecmap", 0, n, FALSE, {}, "client", 0, NoRes))
-  /\ UNCHANGED <<base, cmapc, umapc, interned, heap, shared, calls, last>>
+  /\ last' = NoLast /\ UNCHANGED <<base, cmapc, umapc, interned, heap, shared, calls>>
 
 \* ------------------------------------------------------------------ micro-steps of the running call
 RECURSIVE InternAll(_, _)
@@ -244,13 +249,13 @@ ADocOpen ==
   /\ interned' = InternAll(interned, NamesOf(Me.doc))
   /\ heap' = IF Dev \cap AddressDevs = {} THEN heap ELSE 1 - heap
   /\ SetMe([Me EXCEPT !.pc = "page"])
-  /\ UNCHANGED <<base, cmapc, umapc, shared, running, ncalls, client, last, sched>>
+  /\ last' = NoLast /\ UNCHANGED <<base, cmapc, umapc, shared, running, ncalls, client, sched>>
 
 \* PDFPage.get_pages yields the next selected page; process_page -> render_contents -> init_resources
 APageStart ==
   /\ Micro("page")
   /\ SetMe([Me EXCEPT !.cur = Min(Remaining(running)), !.pc = "cs", !.fm = NoFonts])
-  /\ UNCHANGED <<base, cmapc, umapc, interned, heap, shared, running, ncalls, client, last, sched>>
+  /\ last' = NoLast /\ UNCHANGED <<base, cmapc, umapc, interned, heap, shared, running, ncalls, client, sched>>
 
 \* init_resources: self.csmap = PREDEFINED_COLORSPACE.copy(), then the document's own colour spaces are added
 AInitColorSpacesCopy ==
@@ -262,7 +267,7 @@ AInitColorSpacesCopy ==
           /\ SetMe([Me EXCEPT !.csShared = TRUE, !.pc = "font", !.todo = FontSeq(Me.cur)])
      ELSE /\ base' = base
           /\ SetMe([Me EXCEPT !.csShared = FALSE, !.cs = add(base.cs), !.pc = "font", !.todo = FontSeq(Me.cur)])
-  /\ UNCHANGED <<cmapc, umapc, interned, heap, shared, running, ncalls, client, last, sched>>
+  /\ last' = NoLast /\ UNCHANGED <<cmapc, umapc, interned, heap, shared, running, ncalls, client, sched>>
 
 \* PDFResourceManager.get_font(objid, spec): objid in _cached_fonts
 AFontCacheHit ==
@@ -270,12 +275,12 @@ AFontCacheHit ==
   /\ LET o == Head(Me.todo) IN
        /\ Cache(running)[o].kind # ""
        /\ SetMe([Me EXCEPT !.fm[o] = Cache(running)[o], !.todo = Tail(Me.todo)])
-  /\ UNCHANGED <<base, cmapc, umapc, interned, heap, shared, running, ncalls, client, last, sched>>
+  /\ last' = NoLast /\ UNCHANGED <<base, cmapc, umapc, interned, heap, shared, running, ncalls, client, sched>>
 AFontMiss ==
   /\ Micro("font") /\ Me.todo # <<>>
   /\ Cache(running)[Head(Me.todo)].kind = ""
   /\ SetMe([Me EXCEPT !.pc = "spec", !.bld = [NoFont EXCEPT !.src = Me.doc, !.kind = IF Head(Me.todo) = 5 THEN "simple" ELSE "cid"]])
-  /\ UNCHANGED <<base, cmapc, umapc, interned, heap, shared, running, ncalls, client, last, sched>>
+  /\ last' = NoLast /\ UNCHANGED <<base, cmapc, umapc, interned, heap, shared, running, ncalls, client, sched>>
 
 \* dict_value(spec): getobj of the font dictionary; for a Type0 font also dict_value(DescendantFonts[0]): object 9, taken
 \* from PDFDocument._cached_objs when an earlier font of this call already fetched it with caching on.  In an encrypted
@@ -288,19 +293,19 @@ AGetFontSpec ==
                       !.pc = IF o = 5 THEN "enc"
                              ELSE IF Encrypted(Me.doc) /\ (~hit \/ "DecipherTwice" \in Dev) THEN "decipher"
                              ELSE IF hit THEN "copy" ELSE "parsed"])
-  /\ UNCHANGED <<base, cmapc, umapc, interned, heap, shared, running, ncalls, client, last, sched>>
+  /\ last' = NoLast /\ UNCHANGED <<base, cmapc, umapc, interned, heap, shared, running, ncalls, client, sched>>
 \* an unencrypted object 9 has been parsed: it enters the document's cache as it is
 AGetObjParsed ==
   /\ Micro("parsed")
   /\ SetMe([Me EXCEPT !.dec = 1, !.d9 = IF Me.caching THEN [dec |-> 1, tu |-> EmptyStr] ELSE NoD9, !.pc = "copy"])
-  /\ UNCHANGED <<base, cmapc, umapc, interned, heap, shared, running, ncalls, client, last, sched>>
+  /\ last' = NoLast /\ UNCHANGED <<base, cmapc, umapc, interned, heap, shared, running, ncalls, client, sched>>
 \* decipher_all(decipher, objid, genno, obj): in place, on the object just parsed; the result is what gets cached
 ADecipherAllInPlace ==
   /\ Micro("decipher")
   /\ LET n == Me.dec + 1 IN
      SetMe([Me EXCEPT !.dec = n, !.d9 = IF Me.caching THEN [Me.d9 EXCEPT !.dec = n] ELSE NoD9,
                       !.bld.garbled = (n # 1), !.pc = "copy"])
-  /\ UNCHANGED <<base, cmapc, umapc, interned, heap, shared, running, ncalls, client, last, sched>>
+  /\ last' = NoLast /\ UNCHANGED <<base, cmapc, umapc, interned, heap, shared, running, ncalls, client, sched>>
 \* get_font, Type0: subspec = dict_value(dfonts[0]).copy(); subspec[k] = resolve1(spec[k]) for Encoding, ToUnicode -
 \* the Type0 font's own entries go into a COPY of the descendant dictionary
 ACopyDescendantSpec ==
@@ -312,13 +317,13 @@ ACopyDescendantSpec ==
      THEN SetMe([Me EXCEPT !.bld.touni = IF hasOwn THEN own ELSE Me.d9.tu,
                            !.d9.tu = IF hasOwn /\ Me.d9.dec > 0 THEN own ELSE @, !.pc = "cmap"])
      ELSE SetMe([Me EXCEPT !.bld.touni = own, !.pc = "cmap"])
-  /\ UNCHANGED <<base, cmapc, umapc, interned, heap, shared, running, ncalls, client, last, sched>>
+  /\ last' = NoLast /\ UNCHANGED <<base, cmapc, umapc, interned, heap, shared, running, ncalls, client, sched>>
 
 \* EncodingDB.get_encoding(name, diff): without Differences the shared table itself is returned ...
 AGetEncodingShared ==
   /\ Micro("enc") /\ ~HasDiff(Me.doc)
   /\ SetMe([Me EXCEPT !.bld.encShared = TRUE, !.bld.encName = "WinAnsi", !.pc = "touni"])
-  /\ UNCHANGED <<base, cmapc, umapc, interned, heap, shared, running, ncalls, client, last, sched>>
+  /\ last' = NoLast /\ UNCHANGED <<base, cmapc, umapc, interned, heap, shared, running, ncalls, client, sched>>
 \* ... with Differences a copy is made first and the differences are written into the copy
 AGetEncodingCopyOnWrite ==
   /\ Micro("enc") /\ HasDiff(Me.doc)
@@ -330,7 +335,7 @@ AGetEncodingCopyOnWrite ==
      ELSE /\ base' = base
           /\ SetMe([Me EXCEPT !.bld.encShared = FALSE, !.bld.encName = "WinAnsi", !.bld.encOwn = apply(base.enc["WinAnsi"]),
                               !.pc = "touni"])
-  /\ UNCHANGED <<cmapc, umapc, interned, heap, shared, running, ncalls, client, last, sched>>
+  /\ last' = NoLast /\ UNCHANGED <<cmapc, umapc, interned, heap, shared, running, ncalls, client, sched>>
 
 LoadCMap(n) == [cmapc EXCEPT ![n] = [loaded |-> TRUE, tab |-> PristineCMap(n)]]
 \* CMapParser on the ToUnicode stream into a fresh FileUnicodeMap; `usecmap` calls CMapDB.get_cmap(name), which fills the
@@ -340,7 +345,7 @@ AParseToUnicode ==
   /\ LET n == UseNamed(Me.doc) IN
      cmapc' = IF n # "" /\ ~cmapc[n].loaded THEN LoadCMap(n) ELSE cmapc
   /\ SetMe([Me EXCEPT !.bld.touni = ToUni(Me.doc), !.pc = "widths"])
-  /\ UNCHANGED <<base, umapc, interned, heap, shared, running, ncalls, client, last, sched>>
+  /\ last' = NoLast /\ UNCHANGED <<base, umapc, interned, heap, shared, running, ncalls, client, sched>>
 
 \* CMapDB.get_cmap(name): the font keeps a reference to the cached object.  A font with a ToUnicode stream uses that and
 \* never asks for the ordering's unicode map
@@ -349,27 +354,27 @@ ACMapCacheFill ==
   /\ Micro("cmap") /\ ~cmapc[CMapOf(Me.doc)].loaded
   /\ cmapc' = LoadCMap(CMapOf(Me.doc))
   /\ SetMe([Me EXCEPT !.bld.cmap = CMapOf(Me.doc), !.bld.vert = Vertical(CMapOf(Me.doc)), !.pc = AfterCMap])
-  /\ UNCHANGED <<base, umapc, interned, heap, shared, running, ncalls, client, last, sched>>
+  /\ last' = NoLast /\ UNCHANGED <<base, umapc, interned, heap, shared, running, ncalls, client, sched>>
 ACMapCacheHit ==
   /\ Micro("cmap") /\ cmapc[CMapOf(Me.doc)].loaded
   /\ SetMe([Me EXCEPT !.bld.cmap = CMapOf(Me.doc), !.bld.vert = Vertical(CMapOf(Me.doc)), !.pc = AfterCMap])
-  /\ UNCHANGED <<base, cmapc, umapc, interned, heap, shared, running, ncalls, client, last, sched>>
+  /\ last' = NoLast /\ UNCHANGED <<base, cmapc, umapc, interned, heap, shared, running, ncalls, client, sched>>
 \* CMapDB.get_unicode_map(ordering, vertical): the cache entry holds both writing modes
 AUMapCacheFill ==
   /\ Micro("umap") /\ ~umapc.loaded
   /\ umapc' = [loaded |-> TRUE, first |-> IF Me.bld.vert THEN "v" ELSE "h", h |-> PristineUMapH, v |-> PristineUMapV]
   /\ SetMe([Me EXCEPT !.pc = "widths"])
-  /\ UNCHANGED <<base, cmapc, interned, heap, shared, running, ncalls, client, last, sched>>
+  /\ last' = NoLast /\ UNCHANGED <<base, cmapc, interned, heap, shared, running, ncalls, client, sched>>
 AUMapCacheHit ==
   /\ Micro("umap") /\ umapc.loaded
   /\ SetMe([Me EXCEPT !.pc = "widths"])
-  /\ UNCHANGED <<base, cmapc, umapc, interned, heap, shared, running, ncalls, client, last, sched>>
+  /\ last' = NoLast /\ UNCHANGED <<base, cmapc, umapc, interned, heap, shared, running, ncalls, client, sched>>
 
 \* PDFFont.__init__: self.widths = resolve_all(widths) - in place, on the dictionary the font constructor just built
 AResolveAllInPlace ==
   /\ Micro("widths")
   /\ SetMe([Me EXCEPT !.bld.w = IF Head(Me.todo) = 5 THEN Widths(Me.doc) ELSE CIDWidths(Me.doc), !.pc = "fill"])
-  /\ UNCHANGED <<base, cmapc, umapc, interned, heap, shared, running, ncalls, client, last, sched>>
+  /\ last' = NoLast /\ UNCHANGED <<base, cmapc, umapc, interned, heap, shared, running, ncalls, client, sched>>
 
 \* get_font: if objid and self.caching: self._cached_fonts[objid] = font
 AFontCacheFill ==
@@ -378,7 +383,7 @@ AFontCacheFill ==
        /\ shared' = IF Me.caching /\ "SharedManager" \in Dev THEN [shared EXCEPT ![o] = f] ELSE shared
        /\ SetMe([Me EXCEPT !.fm[o] = f, !.fonts[o] = IF Me.caching /\ "SharedManager" \notin Dev THEN f ELSE @,
                            !.todo = Tail(Me.todo), !.bld = NoFont, !.dec = 0, !.pc = "font"])
-  /\ UNCHANGED <<base, cmapc, umapc, interned, heap, running, ncalls, client, last, sched>>
+  /\ last' = NoLast /\ UNCHANGED <<base, cmapc, umapc, interned, heap, running, ncalls, client, sched>>
 
 \* what a font shows for a code NOW (fonts hold references into the shared tables, so this reads the current process state)
 GlyphText(f, c) ==
@@ -420,14 +425,14 @@ AUseCMapCopy ==
   /\ cmapc' = IF cmapc[client.name].loaded THEN cmapc ELSE LoadCMap(client.name)
   /\ client' = IF "UseCMapAlias" \in Dev THEN [client EXCEPT !.st = "used", !.alias = TRUE]
                ELSE [client EXCEPT !.st = "used", !.alias = FALSE, !.own = PristineCMap(client.name)]
-  /\ UNCHANGED <<base, umapc, interned, heap, shared, calls, running, ncalls, last, sched>>
+  /\ last' = NoLast /\ UNCHANGED <<base, umapc, interned, heap, shared, calls, running, ncalls, sched>>
 \* FileCMap.add_code2cid: the client maps code 1 to its own CID 99 - in ITS table
 AAddCode2Cid ==
   /\ running = 0 - 1 /\ client.st = "used"
   /\ IF client.alias THEN cmapc' = [cmapc EXCEPT ![client.name].tab[1] = 99] /\ client' = [client EXCEPT !.st = "none"]
      ELSE cmapc' = cmapc /\ client' = [client EXCEPT !.st = "none", !.own = EmptyTab]
   /\ running' = 0
-  /\ UNCHANGED <<base, umapc, interned, heap, shared, calls, ncalls, last, sched>>
+  /\ last' = NoLast /\ UNCHANGED <<base, umapc, interned, heap, shared, calls, ncalls, sched>>
 
 Sched == \/ \E d \in Docs, c \in Cachings, ps \in PageSets : Open(d, c, ps) \/ \E k \in Kinds : Extract(d, c, ps, k)
          \/ \E s \in 1..MaxLive : Next(s) \/ Close(s)
